@@ -262,7 +262,7 @@ def run(tier):
     step = 29 if not thorough else 4
     npub = 0
     for ki, (cfgname, op, m, mi) in enumerate(cases):
-        whole = m["mut"] == "none" and ("-name-" not in m["t"] or (ki + SEED) % 6 == 0)   # the well-formed templates: every operation through both clients (the name-prefix family sampled)
+        whole = m["mut"] == "none" and (("-name-" not in m["t"] and "-nested-" not in m["t"]) or (ki + SEED) % 6 == 0)   # the well-formed templates: every operation through both clients (the name-prefix family sampled)
         if not whole and (ki + SEED) % step:
             continue
         cfg = std[cfgname]
